@@ -79,6 +79,7 @@ type simWorld struct {
 	probes    map[string]int
 	local     map[viewKey]*annRoute
 	tags      map[uint32]*annRoute
+	tagsPfx   map[string]*annRoute // "tag/prefix" -> announcement, for bursts whose routes share one tag (identical attribute sets)
 	harnessEr string
 	stateFPs  []string
 	checks    int
@@ -357,7 +358,7 @@ func runScriptOnce(t *testing.T, sc *Script, dump bool) (*RunResult, string) {
 			}
 		}()
 		synctest.Test(t, func(t *testing.T) {
-			w = &simWorld{t: t, sc: sc, probes: map[string]int{}, local: map[viewKey]*annRoute{}, tags: map[uint32]*annRoute{}, cells: map[string]bool{}, stopCh: make(chan struct{})}
+			w = &simWorld{t: t, sc: sc, probes: map[string]int{}, local: map[viewKey]*annRoute{}, tags: map[uint32]*annRoute{}, tagsPfx: map[string]*annRoute{}, cells: map[string]bool{}, stopCh: make(chan struct{})}
 			w.net = newSimNet()
 			net.SimDialHook = w.net.dial
 			defer func() { net.SimDialHook = nil }()
@@ -762,4 +763,14 @@ func (w *simWorld) addStateFP(parts ...string) {
 	w.mu.Lock()
 	w.stateFPs = append(w.stateFPs, fp)
 	w.mu.Unlock()
+}
+
+// annByTag finds the announcement a stored or advertised route stems from.
+func (w *simWorld) annByTag(tag uint32, prefix string) *annRoute {
+	w.mu.Lock()
+	defer w.mu.Unlock()
+	if r := w.tagsPfx[fmt.Sprintf("%x/%s", tag, prefix)]; r != nil {
+		return r
+	}
+	return w.tags[tag]
 }
